@@ -13,14 +13,14 @@ func TestDbg(t *testing.T) {
 		t.Skip()
 	}
 	for _, c := range sensRegress() {
-		if c.SC.Fam != famMerge {
+		if c.Layout != 1<<23|1<<24 {
 			continue
 		}
 		tree := buildSens(c)
+		s := newSubject("x", tree, profile{})
 		text, used := doctree.Emit(tree, c.SC.Style)
-		_ = used
 		o := runOgen(text, profile{}, false)
-		b := runOgen(doctree.CompactJSON(tree), profile{}, false)
-		fmt.Println("SAME?", sameOutcome(b, o), "| base:", b.OK, b.Stage, b.Err, "| got:", o.OK, o.Stage, o.Err)
+		fmt.Println(string(text))
+		fmt.Println(c.SC.Fam, "aliases", used.Aliases, "merges", used.Merges, "base", s.baseline().OK, s.baseline().Err, "->", describeMismatch(s, text, s.baseline(), o))
 	}
 }
